@@ -167,8 +167,8 @@ def main(tier, seed):
     n_charts = 260 if tier == 'quick' else 3000
     # (code must not mention state names: rename_state does not rewrite code)
     profile = genchart.Profile(p_orth=0.4, p_history=0.3, p_contract=0.2, p_internal=0.3, p_entry_code=0.6, max_states=12,
-                               p_active_guard=0.0, active_in_actions=False, p_varied_names=0.0,
-                               alt=(0.3, genchart.parallel_profile(p_internal=0.3, p_entry_code=0.6, p_active_guard=0.0, p_varied_names=0.0,
+                               p_active_guard=0.0, active_in_actions=False, p_varied_names=0.0, p_char_names=0.0,
+                               alt=(0.3, genchart.parallel_profile(p_internal=0.3, p_entry_code=0.6, p_active_guard=0.0, p_varied_names=0.0, p_char_names=0.0,
                                                                    active_in_actions=False)))
     n_viol = 0
     stats = dict(charts=0, renamings=0, renamed_states=0, internal_transitions_of_renamed_states=0, lockstep_execs=0,
